@@ -45,7 +45,16 @@ VMSTAT = {"both": b"nr_free_pages 5\npswpin 11\npswpout 13\n", "absent": None, "
 
 def meminfo(vals, keys):
     order = ["MemTotal", "MemFree"] + [k for k in OPT if k in keys]
-    return b"".join(b"%s:%s%d kB\n" % (k.encode(), b" " * max(1, 15 - len(k)), vals[k]) for k in order)
+    out = []
+    for k in order:
+        if k == "SReclaimable":
+            # kernels >= 4.20 print the wider KReclaimable pool (slab + ION/dma-buf ...) two lines above; it is NOT what "cached" adds
+            out.append(b"KReclaimable:%s%d kB\n" % (b" " * 3, vals[k] + 77777))
+        out.append(b"%s:%s%d kB\n" % (k.encode(), b" " * max(1, 15 - len(k)), vals[k]))
+    # lines of no concern to virtual_memory(), as every current kernel prints them (one of them without a unit)
+    out.append(b"SUnreclaim:        123456 kB\nSwapCached:          4321 kB\nMlocked:               64 kB\nAnonPages:        1234567 kB\n"
+               b"Committed_AS:     7654321 kB\nHugePages_Total:       0\nHugepagesize:       2048 kB\nDirectMap4k:      345678 kB\n")
+    return b"".join(out)
 
 
 def zoneinfo(lows):
